@@ -44,6 +44,7 @@ type engine struct {
 	seed               int
 	workers            int
 	parallelHarness    int
+	evdir              string
 	loadSeconds        float64
 	fnTotals           map[string]int64
 	fnMu               sync.Mutex
@@ -209,6 +210,18 @@ func (h *harnessRun) noteFork(m *machine) {
 		return
 	}
 	key := m.lastIf.Parent().Name() + "@" + posString(h.eng.prog, m.lastIf.Cond.Pos())
+	h.mu.Lock()
+	if h.forks == nil {
+		h.forks = map[string]int{}
+	}
+	h.forks[key]++
+	h.mu.Unlock()
+}
+
+func (h *harnessRun) noteForkAt(key string) {
+	if !h.eng.verbose {
+		return
+	}
 	h.mu.Lock()
 	if h.forks == nil {
 		h.forks = map[string]int{}
